@@ -7,6 +7,12 @@ Section cfg:  exp=<ms|-> nf=<ms|-> nodes=<1..4> type=<node|cluster> place=<key>:
               exp / nf are the cache.Options the cache is BUILT with: `-` = the option is not given, otherwise
               WithExpiry(<ms>) / WithNotFoundExpiry(<ms>) with any integer (0, negative, sub-second, very large);
               the model runs `newOptions` on them (Model.newOptions)
+              inst=<kind>/<exp>/<nf>,…  (round 4) SEVERAL instances over the same servers, replacing exp= / nf=:
+              kind conn | node | wc<k> (NewConn / NewNodeConn / NewConnWithCache over a cache with the harness' own
+              barrier k; monc: NewModel / NewNodeModel / NewModelWithCache), each with its own option values;
+              every op below takes ` i=<n>` (the instance it goes through, default 0), `ctake … i=a+b+c` spreads the
+              readers over instances; `insts` reports what the constructors built:
+              insts => ok q=0 cmds=- kinds=<node|cluster>,… bar=<class>.<class>…,… | dump   (barrier identity per node)
 Ops (see harness/overlay/core/stores/sqlc/zz_verif_c06_test.go):
   take p<pk> [j=] [c=<mask>] [db=1] | qindex x<a> … | get <key> [c=]          mask: i-th cache command of the op
   exec <keys|-> put:<pk>:<v>:<a>|rm:<pk> [c=<m0>/<m1>/…] [db=1] | del <keys|-> [c=<m0>/<m1>/…]
